@@ -102,7 +102,7 @@ def lex (k : Kind) (s : Str) : List Tok := lexFrom k .none s
     folding cannot change it (non-ASCII letters other than U+0130/U+212A are taken to denote
     themselves). -/
 def bareSafe (reserved : Str → Bool) (w : Str) : Bool :=
-  !reserved w && w.all (fun c => !(c.isUpper || c == 'İ' || c == 'K'))
+  !reserved w && w.all (fun c => !(c.isUpper || c == '\u0130' || c == '\u212a'))
 
 /-- the name an identifier token denotes -/
 def denote (reserved : Str → Bool) : Tok → Option Str
@@ -339,6 +339,7 @@ def runSt (k : Kind) : St → Str → St
 def okText (k : Kind) (t : Str) : Bool :=
   !t.isEmpty && !t.contains '\t' && cleanSt (runSt k .none t) &&
   (match t with | c :: _ => !isSpace c | [] => false) &&
-  (match t.reverse with | c :: _ => !isSpace c | [] => false)
+  (match t.reverse with | c :: _ => !isSpace c | [] => false) &&
+  (match lex k t with | tok :: _ => tok != .sym '.' | [] => false)
 
 end Spec.Ident
